@@ -36,6 +36,7 @@ Sym == [
   D2 |-> IStream(TData, Own, 2, 0),   D0 |-> IStream(TData, Own, 0, 7),
   GV |-> IGetValues(0, << [size |-> 16, var |-> 1] >>, 0, 0),
   GX |-> IGetValues(0, << [size |-> 4, var |-> 0], [size |-> 17, var |-> 4] >>, 1, 1),
+  GH |-> IGetValues(0, << [size |-> 4, var |-> 0] >>, 8, 0),      \* 8 trailing bytes that read like a record header
   UK |-> IRaw(1, 200, 5, 1, 0),       PS |-> IParams(Own, 2, 0),
   FB |-> IBegin(Other, 1, 0, 0),      OB |-> IBegin(Own, 1, 1, 0),
   FS |-> IStream(TStdin, Other, 2, 0), AO |-> IAbort(Other, 0, 0), AB |-> IAbort(Own, 0, 1),
@@ -64,8 +65,10 @@ WireSet ==
   \cup (IF "typical" \in Menu THEN { W(role, s, la, 0, "typical") : role \in {1, 3}, s \in Typical, la \in {0, 5} } ELSE {})
   \cup (IF "mini" \in Menu THEN { W(role, s, la, 0, "mini") : role \in {1, 3}, s \in Mini, la \in {0, 3} } ELSE {})
   \cup (IF "mini3" \in Menu THEN { W(3, s, 0, 0, "mini3") : s \in Mini } \cup { W(1, s, 0, 0, "mini3") : s \in { << "S3", "GV", "S1", "S0" >>, << "S1", "AB", "S1", "S0" >> } } ELSE {})
-  \cup (IF "replies" \in Menu THEN { W(role, s, 0, 0, "replies") : role \in {1, 2}, s \in { << "GV" >>, << "GX" >>, << "UK", "FB" >>, << "GX", "GV" >>,
-                                          << "S3", "GX", "S0" >>, << "FB", "UK", "GV" >>, << "OB", "GV", "AO" >>, << "UK", "S1", "GV", "S0" >> } } ELSE {})
+  \cup (IF "replies" \in Menu THEN { W(role, s, 0, 0, "replies") : role \in {1, 2}, s \in { << "GV" >>, << "GX" >>, << "GH", "GV" >>, << "UK", "FB" >>, << "GX", "GV" >>,
+                                          << "S3", "GX", "S0" >>, << "FB", "UK", "GV" >>, << "OB", "GV", "AO" >>, << "UK", "S1", "GV", "S0" >> }
+                                        \* (below) every ordered pair of adjacent reply-producing records (state left behind by one must not leak into the next)
+                                       } \cup { W(1, << a, b >>, 0, 0, "replies") : a \in {"GV", "GX", "UK", "FB", "OB"}, b \in {"GV", "GX", "UK", "FB", "OB"} } ELSE {})
   \cup (IF "auth" \in Menu THEN { W(2, s, 0, 0, "auth") : s \in Typical } ELSE {})
   \cup (IF "trunc" \in Menu THEN { W(3, << "S3", "GV", "S0", "D2", "D0" >>, 0, c, "trunc") : c \in 0..40 } ELSE {})
 WSeq == TLCEval(SetToSeq(WireSet))
